@@ -139,6 +139,8 @@ impl MappedAddr for EndpointIdMappedAddr {
         addr[1..6].copy_from_slice(&ADDR_GLOBAL_ID);
         addr[6..8].copy_from_slice(&ENDPOINT_ID_SUBNET);
         rand::rng().fill_bytes(&mut addr[8..16]);
+        #[cfg(iroh_verif)]
+        verif_hooks::narrow(&mut addr[8..16]);
 
         Self(Ipv6Addr::from(addr))
     }
@@ -200,6 +202,8 @@ impl MappedAddr for RelayMappedAddr {
         addr[1..6].copy_from_slice(&ADDR_GLOBAL_ID);
         addr[6..8].copy_from_slice(&RELAY_MAPPED_SUBNET);
         rand::rng().fill_bytes(&mut addr[8..16]);
+        #[cfg(iroh_verif)]
+        verif_hooks::narrow(&mut addr[8..16]);
 
         Self(Ipv6Addr::from(addr))
     }
@@ -260,6 +264,8 @@ impl MappedAddr for CustomMappedAddr {
         addr[1..6].copy_from_slice(&ADDR_GLOBAL_ID);
         addr[6..8].copy_from_slice(&CUSTOM_MAPPED_SUBNET);
         rand::rng().fill_bytes(&mut addr[8..16]);
+        #[cfg(iroh_verif)]
+        verif_hooks::narrow(&mut addr[8..16]);
 
         Self(Ipv6Addr::from(addr))
     }
@@ -371,6 +377,79 @@ impl<K, V> Default for AddrMapInner<K, V> {
         Self {
             addrs: Default::default(),
             lookup: Default::default(),
+        }
+    }
+}
+
+/// Verification hooks (C18, C19): public wrappers over the three [`AddrMap`]s of a socket and
+/// over [`MultipathMappedAddr::from`].  Only compiled with `--cfg iroh_verif`.
+#[cfg(iroh_verif)]
+pub(crate) mod verif_hooks {
+    use std::sync::atomic::{AtomicU64, Ordering};
+
+    use iroh_base::{CustomAddr, EndpointId, RelayUrl};
+
+    use super::*;
+
+    /// When non-zero the random host part of generated addresses is reduced modulo this
+    /// value, so that the generate-until-unique loop of [`AddrMap::get`] sees collisions.
+    pub static HOST_SPACE: AtomicU64 = AtomicU64::new(0);
+
+    pub(super) fn narrow(host: &mut [u8]) {
+        let n = HOST_SPACE.load(Ordering::Relaxed);
+        if n != 0 {
+            let mut b = [0u8; 8];
+            b.copy_from_slice(host);
+            host.copy_from_slice(&(u64::from_be_bytes(b) % n).to_be_bytes());
+        }
+    }
+
+    /// The three address maps of a socket; clones share the maps.
+    #[derive(Debug, Clone, Default)]
+    pub struct AddrMaps {
+        endpoint: AddrMap<EndpointId, EndpointIdMappedAddr>,
+        relay: AddrMap<(RelayUrl, EndpointId), RelayMappedAddr>,
+        custom: AddrMap<CustomAddr, CustomMappedAddr>,
+    }
+
+    impl AddrMaps {
+        /// `AddrMap::get` on the endpoint-id map.
+        pub fn get_endpoint(&self, key: &EndpointId) -> SocketAddr {
+            self.endpoint.get(key).private_socket_addr()
+        }
+        /// `AddrMap::get` on the relay map.
+        pub fn get_relay(&self, url: &RelayUrl, id: &EndpointId) -> SocketAddr {
+            self.relay.get(&(url.clone(), *id)).private_socket_addr()
+        }
+        /// `AddrMap::get` on the custom-address map.
+        pub fn get_custom(&self, key: &CustomAddr) -> SocketAddr {
+            self.custom.get(key).private_socket_addr()
+        }
+        /// `AddrMap::lookup` on the endpoint-id map; outer `None` if `addr` is not in its range.
+        pub fn lookup_endpoint(&self, addr: Ipv6Addr) -> Option<Option<EndpointId>> {
+            let addr = EndpointIdMappedAddr::try_from(addr).ok()?;
+            Some(self.endpoint.lookup(&addr))
+        }
+        /// `AddrMap::lookup` on the relay map; outer `None` if `addr` is not in its range.
+        pub fn lookup_relay(&self, addr: Ipv6Addr) -> Option<Option<(RelayUrl, EndpointId)>> {
+            let addr = RelayMappedAddr::try_from(addr).ok()?;
+            Some(self.relay.lookup(&addr))
+        }
+        /// `AddrMap::lookup` on the custom-address map; outer `None` if `addr` is not in its range.
+        pub fn lookup_custom(&self, addr: Ipv6Addr) -> Option<Option<CustomAddr>> {
+            let addr = CustomMappedAddr::try_from(addr).ok()?;
+            Some(self.custom.lookup(&addr))
+        }
+    }
+
+    /// [`MultipathMappedAddr::from`]: the kind (`"mixed" | "relay" | "custom" | "ip"`) and the
+    /// socket address the variant carries.
+    pub fn classify(addr: SocketAddr) -> (&'static str, SocketAddr) {
+        match MultipathMappedAddr::from(addr) {
+            MultipathMappedAddr::Mixed(a) => ("mixed", a.private_socket_addr()),
+            MultipathMappedAddr::Relay(a) => ("relay", a.private_socket_addr()),
+            MultipathMappedAddr::Custom(a) => ("custom", a.private_socket_addr()),
+            MultipathMappedAddr::Ip(a) => ("ip", a),
         }
     }
 }
